@@ -33,6 +33,7 @@ FOLLOWS_HELPERS = {
     "C08-R2": "erase / unlink / flag-write / hand-out sites are searched through same-class helpers; a helper counts as 'erases' only when all its paths do",
     "C08-R3": "the pre-announce is followed into the helper that receives the collected vector (summarised with the same abstraction); deeper shapes are refused by the rule itself",
     "C08-R4": "deadline-carrying aggregates and wheel hand-outs are searched through same-class helpers (parameters read as the caller's arguments); periodic-deadline writes are judged wherever they sit; a due test delegated to a helper is refused by the rule itself",
+    "C08-R5": "an admission test delegated to a same-class helper is summarised with the rule's own abstraction (empty / non-empty result ⇒ accepting seen true); an insertion moved out of the scheduling function is refused by the rule itself",
     "C08-R11": "universal over every method of the wheel: any hand-out, wherever it sits, needs the dominating deadline test; a helper's bound parameter is judged by what its callers pass",
     "C08-R13": "universal over every write of the id counter; insertions and emptyings are followed through same-class helpers",
 }
@@ -700,13 +701,67 @@ def r5(ctx, r):
         id_ds = {d for (fld, d) in fresh_id_decls(f, cls)}
         if not id_ds:
             raise AnalysisBroken("%s: no local receives a fresh id from a counter of the class" % short(f.name))
+        # admission delegated to a helper of the class (`rejected = admissionErrorLocked(..); if (!rejected.has_value()) insert`): the
+        # helper is summarised with the same abstraction — "whenever it returns an EMPTY result (nullopt / false / null) it has seen the
+        # accepting flag true" (or the same for a non-empty result) — and the local that receives the result becomes an atom of its own
+        fb_ = ctx.fb()
+        gates = {}      # decl id of the receiving local -> (assignment element, 'E' | 'N')
 
-        def leaf(n, accf=accf, err_ds=err_ds):
+        def empty_result(v):
+            v = unwrap(v)
+            if v is None:
+                return True
+            if any(x.get("k") in ("gvar", "gref") and x.get("n") == "std::nullopt" or x.get("k") == "null" for x in walk(v)):
+                return True
+            if const_value(v) is not None:
+                return not const_value(v)
+            return v.get("k") in ("ctor", "ilist", "zero") and not [a for a in (v.get("args") or v.get("vals") or []) if not a.get("def")]
+
+        def gate_summary(g, accf=accf):
+            from ..locks import LOCK_TYPES
+            if any(x.node.get("k") == "decl" and any(LOCK_TYPES.match(v["t"]) for v in x.node["vars"]) for x in g.stmts()):
+                return None     # takes a lock itself: what it saw may be stale when it returns
+            gpa = PredAbs(g, Vocab(["accepting"]), lambda n: A("accepting") if (n.get("k") == "mcall" and field_of(n.get("obj")) == accf and (last(n.get("callee", "")) == "load" or last(n.get("callee", "")).startswith("operator"))) else None, lambda e: None)
+            rets = [(e, empty_result(e.node.get("v"))) for e in common.returns(g) if e.node.get("v") is not None]
+            for (kind, want) in (("E", True), ("N", False)):
+                sel = [e for (e, emp) in rets if emp == want]
+                if sel and all(gpa.entails(e, A("accepting")) for e in sel):
+                    return kind
+            return None
+        for e in f.stmts():
+            n = e.node
+            tgt, rhs = None, None
+            if n.get("k") in ("bin", "opcall") and n.get("op") == "=" and "root" in e.raw:
+                tgt, rhs = (n["lhs"], n["rhs"]) if n["k"] == "bin" else (n["args"][0], n["args"][1])
+                tgt = strip_casts(tgt)
+                tgt = tgt.get("d") if tgt is not None and tgt.get("k") == "var" and tgt.get("parm") is None else None
+            elif n.get("k") == "decl" and len(n["vars"]) == 1 and n["vars"][0].get("init") is not None:
+                tgt, rhs = n["vars"][0]["d"], n["vars"][0]["init"]
+            if tgt is None or rhs is None:
+                continue
+            calls = [g for x in walk(rhs) for g in helper_defs(fb_, f, x)]
+            if len(calls) == 1:
+                kind = gate_summary(calls[0])
+                if kind:
+                    gates[tgt] = (e, kind) if tgt not in gates else (None, None)
+        gates = dict((d, v) for (d, v) in gates.items() if v[0] is not None)
+        if len(gates) > 1:
+            raise AnalysisBroken("%s: %d locals receive an admission verdict from a helper — the rule tracks one" % (short(f.name), len(gates)))
+        if gates:
+            vocab = Vocab(["accepting", "inserted", "perr", "gate"])
+        gate_d = next(iter(gates), None)
+
+        def leaf(n, accf=accf, err_ds=err_ds, gate_d=gate_d):
             # `pendingError != TimerError::None`
             if n.get("k") == "bin" and n["op"] in ("!=", "==") and strip_casts(n["lhs"]).get("k") == "var" and strip_casts(n["lhs"]).get("d") in err_ds and strip_casts(n["rhs"]).get("k") == "enum":
                 isnone = last(strip_casts(n["rhs"])["n"]) == "None"
                 if isnone:
                     return A("perr") if n["op"] == "!=" else Not(A("perr"))
+            # the admission verdict is non-empty: `v.has_value()`, `v` / `(bool)v` as a condition
+            if gate_d is not None:
+                o = strip_casts(n.get("obj")) if n.get("k") == "mcall" and (last(n.get("callee", "")) == "has_value" or last(n.get("callee", "")).startswith("operator bool")) else (n if n.get("k") == "var" else None)
+                if o is not None and o.get("k") == "var" and o.get("d") == gate_d:
+                    return A("gate")
             if n.get("k") == "mcall" and field_of(n.get("obj")) == accf and last(n.get("callee", "")) in ("load",) or (n.get("k") == "mcall" and field_of(n.get("obj")) == accf and last(n.get("callee", "")).startswith("operator")):
                 return A("accepting")
             return None
@@ -718,10 +773,13 @@ def r5(ctx, r):
         if not ins:
             raise AnalysisBroken("%s no longer inserts" % short(f.name))
 
-        def eff(e, ins=ins, err_ds=err_ds):
+        def eff(e, ins=ins, err_ds=err_ds, gate_d=gate_d, gates=gates):
             from ..locks import LOCK_TYPES
             if e in ins:
                 return [("set", "inserted", True)]
+            if gate_d is not None and e is gates[gate_d][0]:
+                # E: empty result ⇒ accepting was seen true;  N: non-empty result ⇒ accepting was seen true
+                return [("havoc", "gate"), ("assume", Or(A("gate"), A("accepting")) if gates[gate_d][1] == "E" else Or(Not(A("gate")), A("accepting")))]
             if e.kind == "stmt" and e.node.get("k") == "bin" and e.node["op"] == "=" and e.node["lhs"].get("k") == "var" and e.node["lhs"].get("d") in err_ds:
                 v = strip_casts(e.node["rhs"])
                 return [("set", "perr", not (v.get("k") == "enum" and last(v["n"]) == "None"))]
